@@ -248,7 +248,10 @@ def _bfs_unit(backend: str) -> Partial:
 
 def _svg_edges():
     try:
-        svg = open("/repo/docs/_static/invocation_state_machine.svg").read()
+        import pynenc
+
+        root = os.path.dirname(os.path.dirname(os.path.abspath(pynenc.__file__)))
+        svg = open(os.path.join(root, "docs/_static/invocation_state_machine.svg")).read()
     except OSError:
         return None
     return {tuple(e.split("->")) for e in re.findall(r'data-edge="([^"]*)"', svg) if not e.startswith("START")}
